@@ -470,6 +470,7 @@ type ModTarget struct {
 	Name   string
 	ObjT   types.Type
 	Alloc  *ssa.Alloc
+	Via    []string // pointer fields the address was read through
 }
 
 func (r *FnRun) bindNames(env *Env, names []string, args []Val, argt []types.Type) {
